@@ -3,6 +3,7 @@
 //! usage: harness <property> [--seed N] [--tier quick|thorough] [--shard i/n] [--out FILE] [extra…]
 mod common;
 mod c13;
+mod c05;
 mod c19;
 mod c15;
 mod c18;
@@ -24,6 +25,7 @@ pub fn eval_request(req: &str) -> String {
     let r = guarded(std::panic::AssertUnwindSafe(|| {
         None // one line per property module
             .or_else(|| c13::eval(op, a))
+            .or_else(|| c05::eval(op, a))
             .or_else(|| c19::eval(op, a))
             .or_else(|| c15::eval(op, a))
             .or_else(|| c18::eval(op, a))
@@ -48,7 +50,14 @@ fn main() {
     let mut seed = 1u64;
     let mut thorough = false;
     let mut shard = (0u64, 1u64);
-    let mut out: Box<dyn Write> = Box::new(BufWriter::with_capacity(1 << 20, std::io::stdout()));
+    // the library itself prints to stdout on some error paths (`println!` in get_file_entries):
+    // keep the protocol stream on the original stdout and send everything else to stderr
+    let mut out: Box<dyn Write> = unsafe {
+        use std::os::fd::FromRawFd;
+        let orig = libc::dup(1);
+        libc::dup2(2, 1);
+        Box::new(BufWriter::with_capacity(1 << 20, std::fs::File::from_raw_fd(orig)))
+    };
     let mut extra = Vec::new();
     let mut i = 2;
     while i < args.len() {
@@ -81,6 +90,7 @@ fn main() {
             }
         }
         "C13" => c13::gen(&mut ctx),
+        "C05" => c05::gen(&mut ctx),
         "C19" => c19::gen(&mut ctx),
         "C15" => c15::gen(&mut ctx),
         "C18" => c18::gen(&mut ctx),
